@@ -63,9 +63,9 @@ CLAIMED = {
    ref='§5 C06, §0', technique='Lean 4 proof over the encoder model + strict specification decoder as oracle',
    note=TB + ' Five defects fixed (string-table aliasing, WBXML 1.0 charset field, anonymous public id, base64 white space, namespace scope shared with C05).'),
  'C07': dict(
-   text='Option-independence theorems over the conversion models (charset irrelevant, version/anonymity change only the header, generation modes change only white space between markup; Props/C07.lean, growing). Tie: correspondence + oracle: all 32 encoder tuples decode to one document (within each keep-ws class), compact/indent/canonical XML read back as the same tree, UTF-16 / ISO-8859-1 transcodings give byte-identical WBXML.',
-   ref='§5 C07', technique='Lean 4 proof + cross-product differential run',
-   note=TB + ' Transcoding equality additionally rests on Expat (parameter).'),
+   text='Option-independence theorems over the conversion models (Props/C07.lean): charset_irrelevant, version_only_changes_header, anonymous_only_changes_publicid, enc_opts_same_events (same white-space class and same effective string-table switch: equal event lists for every language and tree), enc_opts_same_meaning (any two option tuples with the same white-space setting, all 29 languages incl. typed content compared by value, under the four recorded finding hypotheses), strtbl_irrelevant_tree_partial, strtbl_off_fails_on_literal (witness: only literal names need the table), gen_modes_same_markup_partial / indent_adds_only_whitespace (now through embedded documents), canonical_and_compact_read_back_same_partial and indent_read_back_same_up_to_blank_text_partial (Expat as the stated assumption ReadsBack). Tie: correspondence + oracle: all 32 encoder tuples decode to one document (within each keep-ws class; embedded documents compared as documents), compact / indent / canonical XML read back as the same tree with identical CDATA payloads, UTF-16 / ISO-8859-1 transcodings give byte-identical WBXML; search stage over the whole corpus when the correspondence breaks.',
+   ref='§5 C07, §0', technique='Lean 4 proof + cross-product differential run',
+   note=TB + ' Transcoding equality and the read-back theorems additionally rest on Expat (parameter). _partial marks: CDATA / embedded documents across different string-table switches, canonical vs compact without keep-ws (differs by design), scope of ReadsBack.'),
  'C10': dict(
    text='Theorems over check_public_id / wbxml_tables_search_table models: forcing wins for every document, no identifier and no forcing is rejected, each route selects the first registered entry (general lemmas + decide over the regenerated 29-entry table; Props/C10.lean). Tie: exhaustive IDENT correspondence: 29 languages x routes x {no forcing, each forced language} (6630 WBXML + 179 XML cases), expectation computed independently from the dumped tables.',
    ref='§5 C10', technique='Lean 4 proof + exhaustive identification matrix',
@@ -79,11 +79,11 @@ CLAIMED = {
    ref='§5 C09', technique='Lean 4 proof by kernel evaluation: pinned registry vs regenerated tables',
    note=TB + ' The pinned registry itself is trusted as the record of what 0.11.10 published. A failing row is replayed as a minimal WBXML document decoded by the current build.'),
  'C18': dict(
-   text='Theorems over an index-linked heap model of wbxml_tree.c (nodes with parent / first-child / previous / next links as the C struct has them): the link invariant is preserved by every API call and by all finite histories, adjacent text siblings are merged, the abstraction to a plain tree commutes with every operation (so histories ending in the same shape denote the same document), extraction detaches exactly the sub-tree, teardown releases every node exactly once (Props/C18.lean). Tie: TREE correspondence of whole histories on the real API under ASan/UBSan/LSan with the real links walked after each call; oracle: API-built tree vs wbxml_tree_from_xml of the equivalent text give identical XML and WBXML bytes.',
-   ref='§5 C18', technique='Lean 4 proof (invariant + abstraction by induction over histories) + lock-step differential histories',
-   note=TB + ' The encoders applied to the resulting tree are the models tied by C02/C05/C06. Known finding: extracting a node between two text siblings leaves them adjacent (not re-merged). One defect fixed (extract_node on a detached node).'),
+   text='Theorems over an index-linked heap model of wbxml_tree.c (nodes with parent / first-child / previous / next links as the C struct has them): the link invariant is preserved by every API call and by all finite histories, adjacent text siblings are merged by every insertion, abs (the plain tree) commutes with every operation, same_shape_same_bytes (any two histories ending in the same shape convert to the same WBXML and XML bytes), extract_then_reinsert_last_child, api_tree_equals_parsed_partial and api_built_converts_like_parsed_partial (the canonical document-order API history of an event list builds exactly the tree the XML front end builds, hence the same bytes under every option tuple; the four exclusions of plainEvents are extra work of the front end, each with a kernel-checked witness), teardown releases every node exactly once. Tie: TREE correspondence of whole histories on the real API under ASan/UBSan/LSan with the real links walked after each call; oracle: API-built tree vs wbxml_tree_from_xml of the equivalent text give identical XML and WBXML bytes.',
+   ref='§5 C18, §0', technique='Lean 4 proof (invariant + abstraction by induction over histories; simulation of the XML front end) + lock-step differential histories',
+   note=TB + ' Known finding: extracting a node between two text siblings leaves them adjacent (no_adjacent_text_partial). One defect fixed (extract_node on a detached node).'),
  'C16': dict(
-   text='Theorems over an allocation-ledger model (free monad over malloc / realloc / free / dereference with a failure schedule; block ids never reused, so stale pointers, double frees and leaks are visible): for EVERY failure schedule (single failures and pairs are instances) the modelled functions - buffers, lists, names, attributes, tree nodes, parse_attribute / parse_element with the attribute table, the tree-building call-backs over arbitrary event lists (tree_from_wbxml_events_clean), encoder create / destroy / init_output, the whole string-table chain (collect_strings, split_words, collect_words, check_references, strtbl_initialize_clean with the explicit set of request sites whose failure is benign by design), fill_header, build_result, encoder_encode_tree with and without string table, tree_to_wbxml_no_leak - never fault, release everything they allocated, and report every non-benign failure; kernel-checked witnesses show the former code failing the clause. oom_result_sound_partial: whole-conversion soundness is proved for the encoder half and the tree-building half separately; the WBXML parser main loop, Expat call-backs, the XML printer and typed decoders are covered by exhaustive enumeration of k only (a test, labelled so).',
+   text='Theorems over an allocation-ledger model (free monad over malloc / realloc / free / dereference with a failure schedule; block ids never reused, so stale pointers, double frees and leaks are visible): for EVERY failure schedule (single failures and pairs are instances) the modelled functions - buffers, lists, names, attributes, tree nodes, parse_attribute / parse_element with the attribute table, the tree-building call-backs over arbitrary event lists (tree_from_wbxml_events_clean), encoder create / destroy / init_output, the whole string-table chain (collect_strings, split_words, collect_words, check_references, strtbl_initialize_clean with the explicit set of request sites whose failure is benign by design), fill_header, build_result, encoder_encode_tree with and without string table, tree_to_wbxml_no_leak - never fault, release everything they allocated, and report every non-benign failure; kernel-checked witnesses show the former code failing the clause. the WBXML parser main loop (parse_document_clean, tree_from_wbxml_clean) and the composed WBXML -> tree -> WBXML pipeline (oom_result_sound_wbxml2wbxml: every non-benign failure is reported, nothing leaks, for every k). oom_result_sound_partial keeps its name because two pipelines have an unproved half: the XML printer (wbxml2xml) and the Expat call-backs (xml2wbxml), plus WV / date-time decoders and embedded documents - those are covered by exhaustive enumeration of k only (a test, labelled so).',
    ref='§5 C16, §0', technique='Lean 4 proof over an allocation-ledger monad + exhaustive single-failure enumeration (pairs in thorough) on the real code with an interposed allocator under ASan/LSan',
    note=TB + ' Allocation failure is injected by replacing wbxml_mem.c at link time (no source hook); Expat allocations are outside the property. Known finding: check_public_id() reports an out-of-memory while reading a textual public id of an embedded document as unknown public id. 20 defects fixed.'),
  'C14': dict(
